@@ -44,6 +44,8 @@ Work only inside %(wt)s and your output directory %(out)s.  NEVER edit, build in
 read or write anything under /verif.  Every shell call must start with
     export GOFLAGS=-mod=mod GOPROXY=off GOSUMDB=off GOTOOLCHAIN=local
 (there is no network).  Always give `go test` a -timeout.  The machine is shared: wall-clock numbers are noisy.
+Never use `git stash` (the stash is shared by all worktrees of /repo and other helpers work next to you): save a change with
+`git diff > file` and undo it with `git checkout -- .` / `git apply -R file`.
 When you are completely done, remove the worktree: `git -C /repo worktree remove --force %(wt)s`.
 
 ## What to deliver
